@@ -79,35 +79,51 @@ def run(ctx):
 
     # ------------------------------------------------------------------ C15-offender
     ctx.rule("C15-offender", "unbound variable / non-procedure errors are located at the offending identifier / operator")
-    ee = fb.find(ITP + "eval_expression")
-    vidx = dict((n, i) for i, n in fb.variants("parser::parser::ExpressionBody"))
-    sw = next(iter(mir.discriminant_switches(ee, "ExpressionBody")))
-    sb, place, adt, targets, other = sw
-    pe = Prov(ee)
-    for variant, kind, want in (("Symbol", "UnboundedSymbol", "self"), ("ProcedureCall", "TypeMisMatch", "operator")):
-        reg = mir.dominated_region(ee, targets[vidx[variant]])
-        found = False
-        for b, t in ee.calls(reg):
-            if not callee_matches(t, "ToLocated::locate"):
-                continue
-            # is this the locate of the error kind we look for?
-            tr = pe.taint_reach(mir.op_local(t["args"][0]))
-            kinds = {v for bb, i, s, a, v in mir.aggregates(ee, reg) if s["place"]["local"] in tr}
-            if kind not in kinds:
-                continue
-            found = True
-            root, path = mir.trace_access(ee, t["args"][1])
-            npath = [x for x in path if not isinstance(x, tuple)]
-            if want == "self":
-                ok = root == 1 and npath[-1:] == [1] and "ProcedureCall" not in npath
-            else:
-                ok = "ProcedureCall" in npath and npath[-1:] == [1] and npath[npath.index("ProcedureCall") + 1] == 0
-            ctx.inst("C15-offender", variant, {"location_root": root, "location_path": npath})
-            if not ok:
-                ctx.report("C15-offender", variant, "the %s error is located through %s (root %s), expected the location of the %s" % (
-                    kind, npath, root, "symbol expression itself" if want == "self" else "operator expression"), where_of(ee, t))
-        if not found:
-            ctx.report("C15-offender", variant + "/missing", "no located %s error in the %s arm" % (kind, variant), where_of(ee))
+    # decision tables (evaltables.py): the location carried by the error built for an unbound reference / a non-procedure
+    # operator is a location inside the failing form (or absent, in which case C15-fallback supplies the statement's)
+    from . import evaltables
+    from .ctx import Ctx as _Ctx
+    sub = _Ctx(ctx.prop, ctx.tier, ctx.seed)
+    sub._fb = ctx._fb
+    d_off = (evaltables.rule_symbol(sub, "C08-unbound", "C15-offender") + evaltables.rule_call_errors(sub, "C08-non-procedure", "C15-offender")
+             + evaltables.rule_epc(sub, "C08-non-procedure", "C15-offender"))
+    for r, k, dt, nt in sub.instances:
+        if r == "C15-offender":
+            ctx.inst(r, k, dt)
+    for r in sub.reports:
+        if r["rule"] == "C15-offender":
+            ctx.reports.append(r)
+    def _old_offender():
+        ee = fb.find(ITP + "eval_expression")
+        vidx = dict((n, i) for i, n in fb.variants("parser::parser::ExpressionBody"))
+        sw = next(iter(mir.discriminant_switches(ee, "ExpressionBody")))
+        sb, place, adt, targets, other = sw
+        pe = Prov(ee)
+        for variant, kind, want in (("Symbol", "UnboundedSymbol", "self"), ("ProcedureCall", "TypeMisMatch", "operator")):
+            reg = mir.dominated_region(ee, targets[vidx[variant]])
+            found = False
+            for b, t in ee.calls(reg):
+                if not callee_matches(t, "ToLocated::locate"):
+                    continue
+                # is this the locate of the error kind we look for?
+                tr = pe.taint_reach(mir.op_local(t["args"][0]))
+                kinds = {v for bb, i, s, a, v in mir.aggregates(ee, reg) if s["place"]["local"] in tr}
+                if kind not in kinds:
+                    continue
+                found = True
+                root, path = mir.trace_access(ee, t["args"][1])
+                npath = [x for x in path if not isinstance(x, tuple)]
+                if want == "self":
+                    ok = root == 1 and npath[-1:] == [1] and "ProcedureCall" not in npath
+                else:
+                    ok = "ProcedureCall" in npath and npath[-1:] == [1] and npath[npath.index("ProcedureCall") + 1] == 0
+                ctx.inst("C15-offender", variant, {"location_root": root, "location_path": npath})
+                if not ok:
+                    ctx.report("C15-offender", variant, "the %s error is located through %s (root %s), expected the location of the %s" % (
+                        kind, npath, root, "symbol expression itself" if want == "self" else "operator expression"), where_of(ee, t))
+            if not found:
+                ctx.report("C15-offender", variant + "/missing", "no located %s error in the %s arm" % (kind, variant), where_of(ee))
+    ctx.guarded('C15-offender', d_off >= 6, _old_offender)
 
     # ------------------------------------------------------------------ C15-single-origin
     ctx.rule("C15-single-origin", "a location never comes from another text")
